@@ -21,9 +21,9 @@ func c06Part(name string, mk func(thorough bool) *c06Cfg) explore.Part {
 			New:              func() explore.Instance { return newC06Inst(cfg) },
 			MaxDepth:         cfg.depth,
 			PanicIsViolation: true,
-			Rule: fmt.Sprintf("BFS depth %d over the real sentPacketHandler (%s%s, first Initial pn %d, prefix %v): send kinds per level I/H/0-RTT/1-RTT %v (<= %d packets), ACK sets = subsets of the last %v numbers per space%s, timeout=%v at GetLossDetectionTimeout, clock steps %v, QueueProbePacket=%v (when SendMode is a PTO mode), dropI=%v dropH=%v drop0RTT=%v retry=%v MigratedPath=%v (<= %d) recvBytes=%v recvPkt=%v, settle=%v (closing sequence of clause Q: +1 h, one more packet per space with unreported frames sent and acknowledged, deadlines served until none is armed; offered in every state with an unreported frame, ends the history); state = canon(handler, times relative to the clock) + ledger",
+			Rule: fmt.Sprintf("BFS depth %d over the real sentPacketHandler (%s%s, first Initial pn %d, prefix %v): send kinds per level I/H/0-RTT/1-RTT %v (<= %d packets), ACK sets = subsets of the last %v numbers per space%s, timeout=%v at GetLossDetectionTimeout, clock steps %v, QueueProbePacket=%v (when SendMode is a PTO mode), dropI=%v dropH=%v drop0RTT=%v retry=%v MigratedPath=%v (<= %d) recvBytes=%v recvPkt=%v, settle=%v (closing sequence of clause Q: +1 h, one more packet per space with unreported frames sent and acknowledged, deadlines served until none is armed; offered in every state with an unreported frame, ends the history), silence=%v (continuation of clause S: no further ACK; every deadline served at its time, PTO probes queued and sent, until every earlier frame is reported, no deadline is armed, %d deadlines were served or a state repeats; offered in every state with an unreported frame and an armed deadline, ends the history); state = canon(handler, times relative to the clock) + ledger",
 				cfg.depth, cfg.pers, map[bool]string{true: " via uSentPacketHandler", false: ""}[cfg.wrapper], cfg.initialPN, cfg.prefix, cfg.sendKinds, cfg.maxSends, cfg.ackW,
-				map[bool]string{true: " + one-beyond-largest", false: ""}[cfg.ackUnsent], cfg.timeout, cfg.ticks, cfg.probe, cfg.dropI, cfg.dropH, cfg.drop0, cfg.retry, cfg.migrate, cfg.maxMigr, cfg.recvBytes, cfg.recvPkt, !cfg.noSettle),
+				map[bool]string{true: " + one-beyond-largest", false: ""}[cfg.ackUnsent], cfg.timeout, cfg.ticks, cfg.probe, cfg.dropI, cfg.dropH, cfg.drop0, cfg.retry, cfg.migrate, cfg.maxMigr, cfg.recvBytes, cfg.recvPkt, !cfg.noSettle, !cfg.noSilence, c06SilenceRounds),
 		}
 	})
 }
